@@ -550,6 +550,29 @@ def run(ctx):
         """the place t inside bin_attrs is the entry of the attribute's type"""
         return any(x[1].rsplit('::', 1)[-1] in ('entry', 'get_mut') and len(x[2]) >= 2 and x[2][0] == bmap and is_type(x[2][1]) for x in absx.leaves(t, lambda x: x[0] == 'call'))
 
+    def fresh_slot(t, m):
+        """t is the place `m.entry(type).or_default()` / `.or_insert_with(Vec::new)` / `.or_insert(vec![])` yields: the vector the map m
+        holds under the attribute's type, created empty when the type has none yet"""
+        if t[0] != 'call' or not t[2] or t[2][0][0] != 'call' or short(t[2][0]) != 'entry' or len(t[2][0][2]) != 2 or t[2][0][2][0] != m or not is_type(t[2][0][2][1]):
+            return False
+        n = short(t)
+        return (n == 'or_default' and len(t[2]) == 1) or (n == 'or_insert' and len(t[2]) == 2 and t[2][1] == ('vec', ())) \
+            or (n == 'or_insert_with' and len(t[2]) == 2 and t[2][1][0] == 'fn' and t[2][1][1].endswith(('alloc::vec::Vec::<T>::new', 'core::default::Default>::default')))
+    def placed_in_attrs(A):
+        """the collection that the events A on `attrs` make the value of the attribute's type, or None: `attrs.insert(type, X)`, or
+        `attrs.entry(type).or_default().extend(X)` - the same map for an entry whose attribute types are distinct (the property's
+        well-formed entries; what a second attribute of the same type does is not decided, see UNDECIDED): the vector is created
+        empty and X appended to it"""
+        muts = [e for e in A if short(e) in MUTATORS]
+        if len(muts) != 1 or any(short(e) not in ACCESSORS for e in A if e not in muts):
+            return None
+        e = muts[0]
+        if short(e) == 'insert' and len(A) == 1 and len(e[2]) == 3 and e[2][0] == amap and is_type(e[2][1]):
+            return e[2][2]
+        if short(e) in ('extend', 'append') and len(e[2]) == 2 and fresh_slot(e[2][0], amap):
+            return e[2][1]
+        return None
+
     def lossy_source(lvl, v):
         """why a value of the attribute may never reach the sequence lvl (whose element, or its primitive content, is v): between the
         attribute's decoded value set and lvl there may only be total, element-wise conversions; None when that is so"""
@@ -749,9 +772,9 @@ def run(ctx):
             ctx.fail('V2.mixed-attribute-moves-text-to-bin_attrs', sit, loc(B.root),
                      'the attribute is completed on a path that does not know whether one of its values was not UTF-8'); continue
         seen.add(('complete', any_bin))
-        inserts = [e for e in A if short(e) == 'insert']
         if not any_bin:
-            ok = len(inserts) == 1 and len(A) == 1 and not Bm and inserts[0][2][0] == amap and len(inserts[0][2]) == 3 and is_type(inserts[0][2][1]) and text_vector(inserts[0][2][2])
+            placed = placed_in_attrs(A)
+            ok = placed is not None and not Bm and text_vector(placed)
             ctx.add('V2.all-text-attribute-goes-to-attrs', sit, loc(B.root), ok,
                     'the vector of decoded values must be inserted into `attrs` under the attribute type, and nothing into bin_attrs: attrs %s, bin_attrs %s' % (
                         [short(e) for e in A], [short(e) for e in Bm]))
